@@ -1,6 +1,7 @@
 import Driver.Proto
 import MillerModel.Spec.Select
 import MillerModel.Model.Verbs.Restructure
+import MillerModel.Model.Verbs.Stats
 namespace Driver.Verbs
 open Miller Miller.Verbs
 
@@ -60,7 +61,6 @@ def evalVerb (argv : List String) : Option ((List Rec → List Rec) × Option (L
   | ["tac"] => some (tac.run, some List.reverse)
   | ["group-by", fs] => some ((Verbs.groupBy (fieldsOf fs)).run, some (Spec.Select.groupBy (fieldsOf fs)))
   | ["group-like"] => some (groupLike.run, none)
-  | ["uniq", "-a"] => some (uniqAll.run, none)
   | ["skip-trivial-records"] => some (skipTrivial.run, none)
   | ["nothing"] => some (Verbs.nothing.run, some (fun _ => []))
   | "cat" :: rest => do
@@ -78,6 +78,51 @@ def evalVerb (argv : List String) : Option ((List Rec → List Rec) × Option (L
     | [("--which-are", fs)] => pure ((havingFields .whichAre (fieldsOf fs)).run, none)
     | [("--at-most", fs)] => pure ((havingFields .atMost (fieldsOf fs)).run, none)
     | _ => none
+  | "count" :: rest => do
+    let o ← parseOpts ["-g", "-o"] rest {}
+    if o.flags.any (fun f => f != "-n") then none
+    pure (countVerb ((o.get "-g").map fieldsOf) (o.has "-n") (Bytes.ofString ((o.get "-o").getD "count")), none)
+  | "count-distinct" :: rest => do
+    let o ← parseOpts ["-f", "-g", "-o"] rest {}
+    if o.flags.any (fun f => f != "-n" && f != "-u") then none
+    let fs ← ((o.get "-f").orElse fun _ => o.get "-g").map fieldsOf
+    if o.has "-u" then pure (countDistinctUnlashed fs, none)
+    else pure (countDistinct fs (o.has "-n") (Bytes.ofString ((o.get "-o").getD "count")), none)
+  | "uniq" :: rest => do
+    let o ← parseOpts ["-f", "-g", "-o"] rest {}
+    if o.has "-a" then (if rest == ["-a"] then pure (uniqAll.run, none) else none)
+    else
+      if o.flags.any (fun f => f != "-n" && f != "-c") then none
+      let fs ← ((o.get "-g").orElse fun _ => o.get "-f").map fieldsOf
+      pure (uniqGroup fs (o.has "-c") (o.has "-n") (Bytes.ofString ((o.get "-o").getD "count")), none)
+  | "count-similar" :: rest => do
+    let o ← parseOpts ["-g", "-o"] rest {}
+    if !o.flags.isEmpty then none
+    let fs ← (o.get "-g").map fieldsOf
+    pure (countSimilar fs (Bytes.ofString ((o.get "-o").getD "count")), none)
+  | "fill-down" :: rest => do
+    let o ← parseOpts ["-f"] rest {}
+    if o.flags.any (fun f => !["-a", "--only-if-absent", "--all"].contains f) then none
+    let all := o.has "--all"
+    let fs := (o.get "-f").map fieldsOf
+    if !all && fs.isNone then none
+    pure ((fillDown (if all then none else fs) (o.has "-a" || o.has "--only-if-absent")).run, none)
+  | "stats1" :: rest => do
+    let o ← parseOpts ["-a", "-f", "-g"] rest {}
+    if !o.flags.isEmpty then none
+    let accs ← (o.get "-a").map fun s => s.splitOn ","
+    let vfs ← (o.get "-f").map fieldsOf
+    let gfs := ((o.get "-g").map fieldsOf).getD []
+    -- only if every accumulator is modelled
+    if accs.any (fun a => (({} : Acc).emit a).isNone) then none
+    pure (fun xs => (stats1 accs vfs gfs xs).getD [], none)
+  | "step" :: rest => do
+    let o ← parseOpts ["-a", "-f", "-g"] rest {}
+    if !o.flags.isEmpty then none
+    let sts ← (o.get "-a").map fun s => s.splitOn ","
+    if sts.any (fun s => !["delta", "shift", "shift_lag", "rsum", "counter"].contains s) then none
+    let fs ← (o.get "-f").map fieldsOf
+    pure ((stepVerb sts fs (((o.get "-g").map fieldsOf).getD [])).run, none)
   | "cut" :: rest => do
     let o ← parseOpts ["-f"] rest {}
     let fs ← (o.get "-f").map fieldsOf
@@ -171,6 +216,24 @@ def pair : Handler
     | _ => pure { model := impl, spec := some ("-", "two record lists") }
   | _, _ => none
 
+/-- Does the implementation's text match the model's value?  A model value that starts with the
+0-byte marker is a float given by its bits: the implementation's text must parse back to it. -/
+def valMatches (modelV implV : Bytes) : Bool :=
+  match modelV with
+  | 0 :: hex =>
+    let bits := hexNat (String.ofList (hex.map Char.ofNat))
+    let parsed : Option Nat :=
+      if implV == str "+Inf" then some F64.posInf else if implV == str "-Inf" then some F64.negInf
+      else if implV == str "NaN" then some F64.nan
+      else ParseFloat.parseSat implV
+    parsed == some bits
+  | 1 :: txt => cmpNumeric txt implV == 0
+  | _ => modelV == implV
+
+def recsMatch (model impl : List Rec) : Bool :=
+  model.length == impl.length && (model.zip impl).all fun (a, b) =>
+    a.length == b.length && (a.zip b).all fun (p, q) => p.1 == q.1 && valMatches p.2 q.2
+
 /-- `verbs <argv> <records> | <records out>` -/
 def verbs : Handler
   | [av, rsS], impl => do
@@ -183,7 +246,11 @@ def verbs : Handler
           | none => none
       pure { model := impl, spec }
     | some (m, s) =>
-      let model := Rec.showList (m rs)
+      let mo := m rs
+      -- floats computed by the model are compared by value with the implementation's text
+      let model := match Rec.parseList impl with
+        | some io => if recsMatch mo io then impl else Rec.showList mo
+        | none => Rec.showList mo
       let spec := match s with
         | some f => let w := Rec.showList (f rs); if w == impl then none else some ("-", w)
         | none => none
